@@ -102,6 +102,7 @@ type afProvRedeem struct {
 }
 
 type afCase struct {
+	SigOverlap  int            `json:"sigOverlap,omitempty"`  // signed-redirect checks of several browsers in flight at once (rounds)
 	Overlap     int            `json:"overlap,omitempty"`     // back-channel requests of several callers in flight at once (rounds)
 	ProvRedeem  []afProvRedeem `json:"provRedeem,omitempty"`  // direct provider.Redeem calls instead of a step list
 	ConfigCheck bool           `json:"configCheck,omitempty"` // the configuration-validation check instead of a step list
@@ -458,6 +459,9 @@ func (w *afWorld) step(st *afStep) M {
 		cookies = append(cookies, cname+"=Z2FyYmFnZQ")
 	case "otherkey":
 		cookies = append(cookies, cname+"="+w.sealSess(w.other, st.Sess, now))
+	case "codekey":
+		// a value sealed under the authorization-code key (what a `?code=` carries), presented as the session cookie
+		cookies = append(cookies, cname+"="+w.sealSess(w.codeCi, st.Sess, now))
 	case "sess":
 		if ci != nil {
 			v := w.sealSess(ci, st.Sess, now)
@@ -502,6 +506,9 @@ func (w *afWorld) step(st *afStep) M {
 			code = mk(w.cookieCi["google"], 600, 3000)
 		case "garbage":
 			code = "bm90LWEtY29kZQ"
+		case "jarcookie":
+			// the value of the session cookie this very service last set for the browser (google), presented as a code
+			code = w.jar["google"]
 		case "short-lived":
 			// a genuine code whose session lifetime ends one second from now (sign-in shortly before the lifetime's end)
 			code = mk(w.codeCi, 600, 1)
@@ -1032,9 +1039,82 @@ func afOverlap(c afCase) M {
 	return M{"overlap": counts, "first": first, "rounds": c.Overlap, "callers": callers, "raw": c}
 }
 
+// afSigOverlap: several browsers at the signature gate at once — some with the link the proxy really signed, some with that
+// link's sig and ts attached to a redirect URI that was never signed. Whatever else is in flight, a borrowed signature is refused
+// and the genuine link passes.
+func afSigOverlap(c afCase) M {
+	w, err := newAfWorld(afCase{Domains: []string{"x.io"}, Roots: []string{"x.io"}})
+	if err != nil {
+		return M{"setupError": err.Error(), "raw": c}
+	}
+	defer w.close()
+	ts := strconv.FormatInt(time.Now().Unix(), 10)
+	genuine := "https://app.x.io/"
+	never := "https://never-signed.x.io/collect"
+	sig := afSig(afProxySecret, genuine, ts)
+	var mu sync.Mutex
+	counts := map[string]int{"genuine": 0, "genuineRefused": 0, "borrowed": 0, "borrowedAccepted": 0, "panics": 0}
+	first := map[string]string{}
+	note := func(k, d string) {
+		mu.Lock()
+		counts[k]++
+		if _, ok := first[k]; !ok && d != "" {
+			first[k] = d
+		}
+		mu.Unlock()
+	}
+	call := func(uri, path string) (int, string) {
+		q := url.Values{"redirect_uri": {uri}, "sig": {sig}, "ts": {ts}}
+		req := httptest.NewRequest("GET", "https://"+afHost+path+"?"+q.Encode(), nil)
+		req.Host = afHost
+		rec := httptest.NewRecorder()
+		func() {
+			defer func() {
+				if x := recover(); x != nil {
+					note("panics", fmt.Sprint(x))
+					rec.Code = 599
+				}
+			}()
+			w.mux.ServeHTTP(rec, req)
+		}()
+		return rec.Code, rec.Header().Get("Location")
+	}
+	for r := 0; r < c.SigOverlap; r++ {
+		var wg sync.WaitGroup
+		start := make(chan struct{})
+		for i := 0; i < 8; i++ {
+			wg.Add(1)
+			go func(i int) {
+				defer wg.Done()
+				<-start
+				path := []string{"/google/sign_out", "/okta/sign_out"}[i%2]
+				if i < 4 {
+					code, _ := call(genuine, path)
+					note("genuine", "")
+					if code != 200 && code != 302 {
+						note("genuineRefused", fmt.Sprintf("%s with the genuine link: %d", path, code))
+					}
+				} else {
+					code, loc := call(never, path)
+					note("borrowed", "")
+					if code == 200 || code == 302 {
+						note("borrowedAccepted", fmt.Sprintf("%s for %s with the sig of %s: %d %s", path, never, genuine, code, loc))
+					}
+				}
+			}(i)
+		}
+		close(start)
+		wg.Wait()
+	}
+	return M{"sigOverlap": counts, "first": first, "rounds": c.SigOverlap, "raw": c}
+}
+
 func afRun(c afCase) M {
 	if c.ConfigCheck {
 		return afConfigCheck()
+	}
+	if c.SigOverlap > 0 {
+		return afSigOverlap(c)
 	}
 	if c.Overlap > 0 {
 		return afOverlap(c)
